@@ -9,3 +9,4 @@ import Theorems.C09
 #print axioms C09.link_chanSub
 #print axioms C09.link_reed
 #print axioms C09.link_bm_t1
+#print axioms C09.link_bm_t2
